@@ -119,9 +119,9 @@ func c06CloseResult(c *Check, P string, r *RouterRoles2) {
 	if !c.Floor(P+".O3", "call of the wait helper in Close", len(waits), 1) {
 		return
 	}
-	_, notTimedOut := BoolEdges(Cl, ResultOfAny(waits, 0))
+	_, notTimedOut := r.waitVerdictEdges(Cl, waits)
 	closedTrue, _ := BoolEdges(Cl, func(v ssa.Value) bool { return AllOrigins(v, IsFieldLoad(r.ClosedF)) })
-	c.Floor(P+".O3", "test of the wait helper's result in Close", len(notTimedOut), 1)
+	c.Floor(P+".O3", "test of the wait helper's result in Close (or its error returned as it is)", len(notTimedOut)+tailReturns(Cl, ResultOfAny(waits, 0)), 1)
 	for i, ret := range Returns(Cl) {
 		for _, v := range Origins(ret.Results[0]) {
 			if IsNilConst(v) {
@@ -130,8 +130,16 @@ func c06CloseResult(c *Check, P string, r *RouterRoles2) {
 			}
 		}
 	}
-	timedOut, _ := BoolEdges(Cl, ResultOfAny(waits, 0))
-	ErrorsOnlyFrom(c, P+".O3", "CLOSE-FAILS-ONLY-ON-TIMEOUT", Cl, nil, timedOut, "Close reports an error only when the handlers did not finish within CloseTimeout")
+	timedOut, _ := r.waitVerdictEdges(Cl, waits)
+	{
+		var srcs []ErrSource
+		if IsErrorType(r.WaitFn.Signature.Results().At(0).Type()) {
+			for _, w := range waits {
+				srcs = append(srcs, ErrSource{w, 0}) // the helper's own verdict (decided below: non-nil iff timed out)
+			}
+		}
+		ErrorsOnlyFrom(c, P+".O3", "CLOSE-FAILS-ONLY-ON-TIMEOUT", Cl, srcs, timedOut, "Close reports an error only when the handlers did not finish within CloseTimeout")
+	}
 	for _, e := range timedOut {
 		re := ReachEdge(e, nil)
 		ok := true
@@ -151,8 +159,20 @@ func c06CloseResult(c *Check, P string, r *RouterRoles2) {
 	tos := CallsTo(W, ModulePath+"/pubsub/sync.WaitGroupTimeout")
 	if c.Floor(P+".O3", "WaitGroupTimeout call in the wait helper", len(tos), 1) {
 		to := tos[0]
-		for ret, vals := range ReturnValues(W, 0) {
-			c.Report(len(vals) == 1 && IsResultOf(vals[0], to, 0), P+".O3", "WAIT-RESULT", W, ret.Pos(), "return", "the wait helper returns WaitGroupTimeout's verdict")
+		if IsErrorType(W.Signature.Results().At(0).Type()) {
+			tTrue, tFalse := BoolEdges(W, func(v ssa.Value) bool { return IsResultOf(v, to, 0) })
+			for _, ret := range Returns(W) {
+				if RetNil(ret, 0) {
+					c.Report(len(tFalse) > 0 && GuardedBy(W, ret, tFalse), P+".O3", "WAIT-RESULT", W, ret.Pos(), "return nil", "the wait helper answers nil only when WaitGroupTimeout said 'finished'")
+				} else {
+					os := Origins(ret.Results[0])
+					c.Report(len(tTrue) > 0 && GuardedBy(W, ret, tTrue) && len(os) > 0 && allOf(os, func(v ssa.Value) bool { return ProvablyNonNil(v, func(ssa.Value) bool { return false }) }), P+".O3", "WAIT-RESULT", W, ret.Pos(), "return error", "the wait helper answers with a non-nil error exactly when WaitGroupTimeout said 'timed out'")
+				}
+			}
+		} else {
+			for ret, vals := range ReturnValues(W, 0) {
+				c.Report(len(vals) == 1 && IsResultOf(vals[0], to, 0), P+".O3", "WAIT-RESULT", W, ret.Pos(), "return", "the wait helper returns WaitGroupTimeout's verdict")
+			}
 		}
 		c.Report(AllOrigins(to.Common().Args[1], exportedFieldLoad("CloseTimeout")), P+".O3", "WAIT-BOUND", W, to.Pos(), "WaitGroupTimeout", "the wait is bounded by config.CloseTimeout")
 		// the joined group counts the goroutines that wait for loops and invocations
